@@ -75,6 +75,8 @@ Lemma g_next_newpred : forall l, dec (next_newpred (enc l)) = l.
 Proof. intros. unfold next_newpred. apply dec_enc. Qed.
 Lemma g_push_newlink : forall a, dec (push_newlink (Z.of_nat a)) = Ptr a.
 Proof. intros. unfold push_newlink. apply dec_of_nat. Qed.
+Lemma g_push_added_link : forall l, dec (push_added_link (enc l)) = l.
+Proof. intros. unfold push_added_link. apply dec_enc. Qed.
 Lemma g_remove_next : forall l, dec (remove_next (enc l)) = l.
 Proof. intros. unfold remove_next. apply dec_enc. Qed.
 Lemma g_remove_selflink : forall l, dec (remove_selflink (enc l)) = l.
